@@ -37,13 +37,27 @@ def parts(tier):
                {"kinds": "KINDS_LITM", "samples": 1, "keys": ["a", "b"], "merge": ["default"], "symbolic_leaves": False},
                shards=4, timeout=170, path_timeout=30, mode="CH-E"),
         ]
-    return []
+    return [
+        CH("pairs", "vflib.props.c02:scen_tight",
+           {"kinds": "KINDS_FULL", "samples": 2, "keys": ["a"], "merge": ["default", "exact", "p50n2"], "registries": ["default", "none"], "dkf": True, "dkr": True},
+           shards=16, timeout=1500, path_timeout=30, mode="CH-P+CH-E"),
+        CH("triples", "vflib.props.c02:scen_tight", {"kinds": "KINDS_FULL", "samples": 3, "keys": ["a"]}, shards=16, timeout=1500, path_timeout=30, mode="CH-P+CH-E"),
+        CH("two_keys", "vflib.props.c02:scen_tight", {"kinds": "KINDS_SMALL", "samples": 2, "keys": ["a", "b"], "merge": ["default", "p50n2"]},
+           shards=16, timeout=1500, path_timeout=30, mode="CH-P+CH-E"),
+        CH("three_nested_fields", "vflib.props.c02:scen_tight", {"kinds": "KINDS_NEST", "samples": 1, "keys": ["a", "b", "c"], "merge": ["default", "p50n2"],
+                                                                  "symbolic_leaves": False}, shards=16, timeout=1500, path_timeout=30, mode="CH-E"),
+        CH("literals", "vflib.props.c02:scen_tight", {"kinds": "KINDS_LIT", "samples": 3, "keys": ["a"], "symbolic_leaves": False},
+           shards=14, timeout=1500, path_timeout=30, mode="CH-E"),
+        CH("literals_merged_models", "vflib.props.c02:scen_tight",
+           {"kinds": "KINDS_LITM", "samples": 2, "keys": ["a", "b"], "merge": ["default"], "symbolic_leaves": False}, shards=5, timeout=900, path_timeout=30, mode="CH-E"),
+    ]
 
 
 META = dict(c01.META)
 META.update({
     "explanation": "every shape genome within the bound is explored; the final model graph is walked in parallel with the samples and every Optional / union member / element type / Literal / Any must have a witness among the routed values",
-    "bounds": {"quick": "2 samples x 21 kinds x 3 merge policies; 3 samples x 9 interaction kinds x dict_keys_fields bit"},
+    "bounds": {"quick": "2 samples x 23 kinds x 3 merge policies; 3 samples x 9 interaction kinds x dict_keys_fields bit; literal kinds (14) x 2 samples; merged models with literal fields",
+               "thorough": "+ registries, dict-field options; 3 samples x 23 kinds; 2 keys; 3 nested fields; 3 samples x 14 literal kinds"},
     "outside_claim": ["deeper nesting / more samples / more varying keys than the bound"],
     "assumptions": ["strings are atoms from a fixed pool", "a value inhabiting two union members counts as a witness for both"],
 })
